@@ -63,6 +63,92 @@ func checkC23(p *Prog, r *Report) {
 		r.add(Obligation{Rule: rule, Instance: fn.Name() + ": level-limited recursion without a level-blind visited set", Site: p.pos(levelCut.Pos()), Func: fnName(fn), Status: "violated", Path: true, Key: key,
 			Detail: fn.Name() + " stops at a level limit and also skips every target already in the membership-only set `" + visited.Name() + "`: a target first reached at depth d > 1 is never expanded again when it is reached at a smaller depth, so with r->a->b->c and r->b, `deps --level 2 r` omits c"})
 	}
+	// (1a) deps: an edge is free only between two targets of the same rule, decided on the parents of both ends
+	{
+		rl := "E5.deps-free-edge-same-rule"
+		var lvl *ssa.Parameter
+		for _, prm := range deps.Params {
+			if prm.Name() == "currentLevel" {
+				lvl = prm
+			}
+		}
+		nFree, okFree, nPaid := 0, 0, 0
+		for _, ci := range callsInFn(deps, deps) {
+			c, ok := ci.(*ssa.Call)
+			if !ok || lvl == nil {
+				continue
+			}
+			free := false
+			for _, a := range c.Call.Args {
+				if a == ssa.Value(lvl) {
+					free = true
+				}
+			}
+			if !free {
+				nPaid++
+				continue
+			}
+			nFree++
+			for _, f := range factsAt(c) {
+				if bo, ok := f.V.(*ssa.BinOp); ok && bo.Op == token.EQL && f.Val {
+					if tagsOf(bo.X, SliceOpts{})["call:(core.BuildLabel).Parent"] && tagsOf(bo.Y, SliceOpts{})["call:(core.BuildLabel).Parent"] {
+						okFree++
+					}
+				}
+			}
+		}
+		if lvl == nil {
+			r.unresolved(rl, "parameter currentLevel of query.deps")
+		} else {
+			r.check(nFree == okFree && nPaid >= 1, rl, "deps recurses at the same level only between targets with the same parent", p.pos(deps.Pos()), fnName(deps), itoa(nFree)+" same-level recursion(s), each under dep.Label.Parent() == target.Label.Parent(); "+itoa(nPaid)+" charged recursion(s)", "deps recurses without charging a level under a test that is not `both ends have the same parent rule` (e.g. compares the dependency's parent with the current target itself, which fails when the current target is a hidden sub-target): chains of a rule's own hidden sub-targets consume the level budget, or foreign edges become free")
+		}
+	}
+	// (1b) the reverse search: its queue is first-in-first-out while edges cost 0 or 1, so a target can be queued first at a
+	// larger depth than its distance; the de-duplication must let a shallower rediscovery through
+	if push := p.Fn("query", "openSet.Push"); push == nil {
+		r.unresolved(rule, "query.openSet.Push")
+	} else {
+		recorded, reopen := false, false
+		eachInstr(push, false, func(_ *ssa.Function, i ssa.Instruction) {
+			switch x := i.(type) {
+			case *ssa.MapUpdate:
+				if tagsOf(x.Map, SliceOpts{})["query.openSet.done"] && tagsOf(x.Value, SliceOpts{})["query.node.depth"] {
+					recorded = true
+				}
+			case *ssa.BinOp:
+				if x.Op == token.LSS && tagsOf(x.X, SliceOpts{})["query.node.depth"] && tagsOf(x.Y, SliceOpts{})["query.openSet.done"] {
+					reopen = true
+				}
+				if x.Op == token.GTR && tagsOf(x.Y, SliceOpts{})["query.node.depth"] && tagsOf(x.X, SliceOpts{})["query.openSet.done"] {
+					reopen = true
+				}
+			}
+		})
+		// every queue insertion is on !present or depth < recorded
+		guarded := true
+		nIns := 0
+		eachInstr(push, false, func(_ *ssa.Function, i ssa.Instruction) {
+			c, ok := i.(*ssa.Call)
+			if !ok || !(strings.HasSuffix(calleeName(&c.Call), "list.List).PushBack") || strings.HasSuffix(calleeName(&c.Call), "list.List).PushFront")) {
+				return
+			}
+			nIns++
+			if !blockJustified(c.Block(), func(f Fact) bool {
+				if e, ok := f.V.(*ssa.Extract); ok && e.Index == 1 && !f.Val {
+					return true // !present
+				}
+				if bo, ok := f.V.(*ssa.BinOp); ok && f.Val && (bo.Op == token.LSS || bo.Op == token.GTR) {
+					return true
+				}
+				return false
+			}, 4) {
+				guarded = false
+			}
+		})
+		r.add(Obligation{Rule: rule, Instance: "openSet.Push: a target found again at a smaller depth is queued again", Site: p.pos(push.Pos()), Func: fnName(push), Path: true, Key: rule + "|" + fnName(push),
+			Status: map[bool]string{true: "discharged", false: "violated"}[recorded && reopen && guarded && nIns > 0],
+			Detail: map[bool]string{true: "the visited map records the depth a target was queued at, and Push queues it when absent or when node.depth is smaller than the recorded one", false: "revdeps de-duplicates on push with a membership-only (or depth-blind) set although its first-in-first-out queue is not ordered by depth (edges inside a rule cost 0): a target first queued through a longer route keeps the larger depth, is not expanded under the level limit, and its reverse dependencies are lost (q <- A, q <- _y#h <- y, A <- y, y <- z: `revdeps --level 2 q` omits z)"}[recorded && reopen && guarded && nIns > 0]})
+	}
 	// (2)
 	rule = "E7.visited-key-is-the-expanded-node"
 	{
